@@ -78,3 +78,42 @@ fn dzst_unit_set_reserve_remove() {
     assert!(s.remove(&()));
     assert!(s.is_empty());
 }
+
+/// D-ZST, more histories: every operation that can remove an element while a resize would be in
+/// flight, for zero-sized elements, in a loop over several rounds.
+#[test]
+fn dzst_histories() {
+    use griddle::hash_map::Entry;
+    for round in 0..6 {
+        let mut s: HashSet<()> = HashSet::new();
+        assert!(s.insert(()));
+        s.reserve(10 + round);
+        match round {
+            0 => { assert!(s.remove(&())); }
+            1 => { s.retain(|_| false); }
+            2 => { assert_eq!(s.drain_filter(|_| true).count(), 1); }
+            3 => { assert_eq!(s.take(&()), Some(())); }
+            4 => { s.shrink_to_fit(); assert!(s.remove(&())); }
+            _ => { assert!(s.try_reserve(100).is_ok()); assert!(s.remove(&())); }
+        }
+        assert!(s.is_empty());
+        assert_eq!(s.iter().count(), 0);
+        assert!(s.insert(()));
+        assert_eq!(s.len(), 1);
+    }
+    let mut m: HashMap<(), ()> = HashMap::new();
+    m.insert((), ());
+    m.reserve(10);
+    if let Entry::Occupied(o) = m.entry(()) {
+        match o.replace_entry_with(|_, _| None) {
+            Entry::Vacant(v) => { v.insert(()); }
+            Entry::Occupied(_) => panic!("still occupied"),
+        }
+    } else {
+        panic!("vacant");
+    }
+    assert_eq!(m.len(), 1);
+    m.reserve(100);
+    assert_eq!(m.remove(&()), Some(()));
+    assert!(m.is_empty());
+}
